@@ -479,6 +479,24 @@ func (ts *TermStore) Bin(op Op, a, b *Term) *Term {
 			if a.op == OpBAnd && a.a[1].op == OpConst {
 				return ts.Bin(OpBAnd, a.a[0], ts.Const(w, a.a[1].val&b.val))
 			}
+			// masks distribute over or / ite / constant shifts when a piece folds away
+			if a.op == OpBOr {
+				x, y := ts.Bin(OpBAnd, a.a[0], b), ts.Bin(OpBAnd, a.a[1], b)
+				if x.op == OpConst || y.op == OpConst || x == a.a[0] || y == a.a[1] {
+					return ts.Bin(OpBOr, x, y)
+				}
+			}
+			if a.op == OpIte && (a.a[1].op == OpConst || a.a[2].op == OpConst) {
+				return ts.Ite(a.a[0], ts.Bin(OpBAnd, a.a[1], b), ts.Bin(OpBAnd, a.a[2], b))
+			}
+			if a.op == OpShl && a.a[1].op == OpConst && a.a[1].val < 64 {
+				// (x << k) & c : bits of c below k are irrelevant; if x is narrow the result may vanish
+				_, hx := ts.ubounds(a.a[0])
+				k := a.a[1].val
+				if bits.Len64(hx)+int(k) <= 64 && (hx<<k)&b.val == 0 {
+					return ts.Const(w, 0)
+				}
+			}
 		}
 		if a == b {
 			return a
